@@ -1,28 +1,50 @@
 """C17 — pointers set for a test are restored after it; plugin actions nest: generator and settings."""
+import os
 ID = "C17"
+SHRINK_BUDGET = int(os.environ.get("C17_SHRINK_BUDGET", "250"))      # the mutation trials use a smaller one
 HARNESS = "h_c17"
 TRUSTED = [
     "Lean 4 kernel; axioms of every theorem audited (propext, Classical.choice, Quot.sound at most)",
-    "hand-written model lean/CppUModel/Model/Plugins.lean, tied to src/CppUTest/TestPlugin.cpp, include/CppUTest/TestPlugin.h "
-    "and TestRegistry::installPlugin/removePluginByName/resetPlugins by the h_c17 correspondence of this run",
-    "translate/extract_plugins.py: regenerates MAX_SET and the sentinel's name, checks the shape of CppUTestStore, "
-    "SetPointerPlugin::postTestAction and constructor, UT_PTR_SET, runAllPre/PostTestAction, addPlugin, getPluginByName, "
-    "TestPlugin::removePluginByName, TestRegistry::installPlugin/resetPlugins/removePluginByName",
+    "translate/extract_plugincode.py (clang++-14 JSON AST -> the statement language of Model/PluginsSyntax.lean) and the "
+    "interpreter Model/PluginsTable.lean: CppUTestStore, SetPointerPlugin::postTestAction and constructor, the setlist array "
+    "length, the UT_PTR_SET statement order and the bodies of runAllPre/PostTestAction are regenerated on every run; the "
+    "obligations code_*_refines / never_past_the_table / code_walks_are_model are proved about the regenerated text, and the "
+    "driver executes the regenerated code next to the hand-written model on every trace (a translator bug shows up as a "
+    "`regenerated-…-differs` line), so the translator is cross-checked, not blindly trusted",
+    "hand-written model lean/CppUModel/Model/Plugins.lean (chain operations, registry functions, Utest::run phases, test kinds, "
+    "changes of the chain during a run, the command-line runner's install/run/remove sequence), tied to the code by the "
+    "h_c17 correspondence of this run",
+    "translate/extract_plugins.py: regenerates MAX_SET, the sentinel's name and DEF_PLUGIN_SET_POINTER, checks the shape of "
+    "addPlugin, getPluginByName, TestPlugin::removePluginByName, TestRegistry::installPlugin/resetPlugins/removePluginByName/"
+    "runAllTests and CommandLineTestRunner::runAllTestsMain",
     "the test runner calls runAllPreTestAction before and runAllPostTestAction after every test whatever its outcome "
-    "(observed by the harness for pass / FAIL / FAIL_C / std exception / foreign exception; proved in C01's model, not here)",
+    "(observed by the harness for pass / FAIL / FAIL_C / std exception / foreign exception in setup, body and teardown; "
+    "proved in C01's model and connected by C17x, not here)",
 ]
 ASSUMPTIONS = [
-    "constructing a SetPointerPlugin resets the process-wide table index (modelled: construction = index := 0); entries "
+    "constructing a SetPointerPlugin resets the process-wide table index (regenerated: ctorCode); entries "
     "recorded by tests that ran without an enabled plugin are forgotten by a construction and otherwise undone by the next "
     "active post action (the oracle then demands the values from the last point where the table was empty; with an empty "
     "table at test start that is literally the property's clause)",
+    "pointerTableIndex is modelled as an unbounded integer; the proved invariant 0 <= index <= MAX_SET shows it never leaves "
+    "the range of int",
     "a plugin fails a test from its pre action through result.addFailure; a TERMINATING failure (test.fail / FAIL) raised in a pre "
     "action escapes TestRegistry::runAllTests as an exception - body and all post actions are skipped (confirmed, not driven)",
+    "the command-line runner is driven with -e (unexpected exceptions are not re-thrown); with the default (re-throw) a throwing "
+    "test ends the run by design and nothing after it runs",
     "a plugin object is installed at most once at a time (installing a linked object again makes the chain cyclic)",
     "removePluginByName is not called with the sentinel's own name \"null\" (see report: that unlinks the sentinel)",
-    "plugin names pairwise different for the remove-exactly claim (with duplicates up to three plugins go; modelled, not claimed)",
+    "plugin names pairwise different for the remove-exactly claim (with duplicates up to three plugins go; modelled, not claimed; "
+    "this includes a user-installed plugin that carries the command-line runner's name SetPointerPlugin)",
+    "no SetPointerPlugin is constructed and no nested registry run with an active pointer plugin happens INSIDE a test that has "
+    "redirections pending (both act on the process-wide table; outside the quantifier, not driven)",
 ]
-RULE = ("stream midrun: 2-6 queued tests run by ONE TestRegistry::runAllTests, a test installing / removing (head, last, any) a "
+RULE = ("stream phases: single tests redirecting in setup(), body and teardown() (sset/set/tset), the three phases filling the table one "
+        "after the other, exactly to the limit and one past it in each phase, failing / throwing setup (body skipped, teardown not), with "
+        "the pointer plugin active, disabled (entries piling up across tests) or absent; stream cli: queued tests through "
+        "CommandLineTestRunner::runAllTestsMain (-e -r1..3) on registries with any chain, with stale entries / a full table before, "
+        "with a user-installed plugin of the same name, followed by single tests, a registry run or a second command-line run; "
+        "stream midrun: 2-6 queued tests run by ONE TestRegistry::runAllTests, a test installing / removing (head, last, any) a "
         "plugin on the running registry from its body or from a recording plugin's post action, logs of every test of the run "
         "judged against what is installed when that test starts; 52 pointers of four types (void*, function pointer, double*, int**) through the same macro; tests also run in a "
         "separate process, as IgnoredUtestShell and run-ignored; plugins that report a failure from their pre action; "
@@ -33,7 +55,8 @@ RULE = ("stream midrun: 2-6 queued tests run by ONE TestRegistry::runAllTests, a
         "frequent) and ending by pass / FAIL / FAIL_TEXT_C / std::runtime_error / throw 42; the pointer plugin is "
         "disabled/enabled, removed by name and replaced by a NEWLY CONSTRUCTED one between tests (stream setlife: tests "
         "while it is inactive, also up to the limit across tests, then a fresh or the re-enabled plugin and short tests on "
-        "the same few pointers); a tagged stream with the SetPointerPlugin absent or disabled for some tests, one with duplicate names, one malformed. non-trivial = at "
+        "the same few pointers); a tagged stream with the SetPointerPlugin absent or disabled for some tests, one with duplicate names, one malformed. "
+        "On every trace the driver also runs the code regenerated from the current source (array-level state) next to the model. non-trivial = at "
         "least one test that redirected something with at least one plugin installed")
 
 OUTCOMES = ["pass", "pass", "fail", "failc", "throw", "throwint"]
@@ -77,7 +100,82 @@ def gen_test(rng):
     pool = rng.sample(range(52), rng.choice([1, 2, 3, 8, 52]))
     if rng.random() < 0.3:
         pool = rng.sample(range(40, 52), rng.choice([1, 3, 12]))      # the typed pointers only
-    return ["set %d %d" % (rng.choice(pool), rng.randrange(64)) for _ in range(n)] + [run_line(rng)]
+    extra = []
+    if rng.random() < 0.2:                       # a few redirections in setup() / teardown() as well
+        extra = ["%s %d %d" % (rng.choice(["sset", "tset"]), rng.choice(pool), rng.randrange(64)) for _ in range(rng.randint(1, 3))]
+    return extra + ["set %d %d" % (rng.choice(pool), rng.randrange(64)) for _ in range(n)] + [run_line(rng)]
+
+
+def gen_phases(rng):
+    """redirections in setup(), body and teardown() of single tests: the phases fill the table one after the other, also
+    exactly to the limit and one past it in each phase; a failing / throwing setup skips the body but not teardown();
+    the same few pointers in all three phases (the value that comes back is the one from before the FIRST redirection)"""
+    ops = []
+    recs = rng.sample(range(8), rng.randint(0, 3))
+    mode = rng.random()
+    for r in recs:
+        ops.append("install %d" % r)
+    if mode < 0.85:
+        ops.insert(rng.randint(0, len(ops)), "install set")
+    if mode > 0.7:
+        ops.append("disable set")                      # entries pile up across tests
+    pool = rng.sample(range(52), rng.choice([1, 2, 4]))
+    for t in range(rng.randint(1, 5)):
+        x = rng.random()
+        if x < 0.4:
+            ns, nb, nt = rng.randint(0, 3), rng.randint(0, 3), rng.randint(0, 3)
+        elif x < 0.7:
+            ns = rng.choice([0, 5, 31, 32, 33])
+            nb = rng.choice([0, 1, max(0, 32 - ns), max(0, 33 - ns)])
+            nt = rng.choice([0, 1, 2, max(0, 32 - ns - nb), max(0, 33 - ns - nb)])
+        else:
+            ns, nb, nt = rng.randint(0, 34), rng.randint(0, 34), rng.randint(0, 6)
+        for _ in range(ns):
+            ops.append("sset %d %d" % (rng.choice(pool), rng.randrange(64)))
+        for _ in range(nb):
+            ops.append("set %d %d" % (rng.choice(pool), rng.randrange(64)))
+        for _ in range(nt):
+            ops.append("tset %d %d" % (rng.choice(pool), rng.randrange(64)))
+        kind = rng.choice(["", "", "", " sep", " runign", " ign"])
+        ops.append("run %s/%s/%s%s" % (rng.choice(["pass", "pass", "pass"] + ENDS[1:]), rng.choice(ENDS), rng.choice(["pass", "pass"] + ENDS[1:]), kind))
+        if mode > 0.7 and rng.random() < 0.4:
+            ops.append(rng.choice(["enable set", "disable set", "newset", "install set"]))
+    return ops
+
+
+def gen_cli(rng):
+    """the queued tests through CommandLineTestRunner::runAllTestsMain (`cli <repetitions>`): the runner constructs,
+    installs and afterwards removes by name its own SetPointerPlugin; before the run: any chain (also with the
+    harness' own pointer plugin, which carries the same name, installed / disabled), tests that ran without an active
+    plugin (entries left recorded, also a full table); after it: single tests, a registry run, a second command-line run"""
+    ops = []
+    for r in rng.sample(list(range(8)) + [20], rng.randint(0, 4)):
+        ops.append("install %d" % r)
+        if rng.random() < 0.2:
+            ops.append("disable %d" % r)
+    own = rng.random()
+    if own < 0.25:
+        ops.insert(rng.randint(0, len(ops)), "install set")
+        if rng.random() < 0.5:
+            ops.append("disable set")
+    pool = rng.sample(range(52), rng.choice([1, 2, 4]))
+    if own >= 0.25 and rng.random() < 0.5:
+        for _ in range(rng.randint(1, 3)):              # stale entries (no active plugin)
+            ops.extend(small_test(rng, pool, nmax=rng.choice([2, 20, 34]), outcomes=OUTCOMES))
+    for rnd in range(rng.randint(1, 2)):
+        for k in range(rng.randint(1, 5)):
+            for _ in range(rng.choice([0, 1, 2, 3, 5, 32, 33])):
+                ops.append("set %d %d" % (rng.choice(pool), rng.randrange(64)))
+            ops.append("test %s - -" % outcome3(rng))
+        ops.append("cli %d" % rng.choice([1, 1, 2, 3]))
+        x = rng.random()
+        if x < 0.4:
+            ops.extend(small_test(rng, pool))
+        elif x < 0.6:
+            ops += ["install set"] + small_test(rng, pool)
+        elif x < 0.75:
+            ops += ["set %d 1" % pool[0], "test pass - -", "set %d 2" % pool[0], "test fail - -", "runall"]
+    return ops
 
 
 def name_of(r):
@@ -139,7 +237,7 @@ def gen_case(rng, ntests, with_set=True, dup=False, malformed=False):
                                        ["remove SetPointerPlugin", "newset", "install set"], ["newset", "install set"]]))
         ops.extend(gen_test(rng))
     if malformed:
-        junk = ["install 3", "install 3", "install set", "remove null", "run bogus", "runall", "test pass i3 -", "test pass rnull -", "test fail - 9:x", "newset", "disable 100", "enable 99", "set 99 1", "set 1 99", "set 1", "run",
+        junk = ["install 3", "install 3", "install set", "remove null", "run bogus", "runall", "test pass i3 -", "test pass rnull -", "test fail - 9:x", "newset", "disable 100", "enable 99", "set 99 1", "set 1 99", "set 1", "run", "sset 1", "tset 99 1", "cli", "cli 0", "cli 9", "cli 2", "sset 1 1", "tset 2 2",
                 "frob", "enable 77", "install", "get", "remove", "run pass"]
         for _ in range(rng.randint(1, 4)):
             ops.insert(rng.randint(0, len(ops)), rng.choice(junk))
@@ -249,6 +347,8 @@ def gen_batch(rng):
 def generate(rng, tier):
     quick = tier == "quick"
     n = 1500 if quick else 8000
+    if os.environ.get("C17_TRIAL_CASES"):          # mutation trials on a loaded machine: fewer cases, same streams
+        n = int(os.environ["C17_TRIAL_CASES"])
     out = []
     for i in range(n):
         out.append(("gen", gen_case(rng, rng.randint(1, 10))))
@@ -258,6 +358,10 @@ def generate(rng, tier):
         out.append(("setlife", gen_setlife(rng)))
     for i in range(n // 3):
         out.append(("midrun", gen_batch(rng)))
+    for i in range(n // 4 if quick else n // 8):        # (thorough: the added streams are kept at ~10 % of the run)
+        out.append(("phases", gen_phases(rng)))
+    for i in range(n // 5 if quick else n // 12):
+        out.append(("cli", gen_cli(rng)))
     for i in range(n // 8):
         out.append(("dupnames", gen_case(rng, rng.randint(1, 4), dup=True)))
     for i in range(n // 10):
@@ -273,8 +377,8 @@ def generate(rng, tier):
 
 
 def translate(ctx):
-    from translate import extract_plugins
-    return extract_plugins.run()
+    from translate import extract_plugins, extract_plugincode
+    return (extract_plugins.run() or []) + (extract_plugincode.run() or [])
 
 
 def nontrivial(r):
@@ -293,6 +397,11 @@ def observe(r, rep):
             rep.count("branch.redirections_%s" % ("0" if k == 0 else "1-31" if k < 32 else "32"))
         elif l.startswith("> set "):
             locs.append(l.split()[2])
+        elif l.startswith("> sset ") or l.startswith("> tset "):
+            rep.count("branch.redirection_in_" + ("setup" if l[2] == "s" else "teardown"))
+            locs.append(l.split()[2])
+        elif l.startswith("regenerated-"):
+            rep.count("branch.REGENERATED_CODE_DIFFERS")
         elif l.startswith("> run "):
             ph = l.split()[2].split("/")
             rep.count("branch.outcome_" + ph[1])
@@ -316,6 +425,8 @@ def observe(r, rep):
                 rep.count("branch.midrun_postaction_change")
         elif l == "> runall":
             rep.count("branch.runall")
+        elif l.startswith("> cli "):
+            rep.count("branch.cli_run_repeat_" + l.split()[2])
         elif l.startswith("> install ") and l.endswith("failpre"):
             rep.count("branch.failing_pre_plugin_installed")
         elif l.startswith("got sentinel"):
@@ -326,18 +437,27 @@ def observe(r, rep):
             rep.count("branch.chain_len_%d" % min(len(l.split()) - 1, 9))
 
 
-LEVEL_TEXT = ("Machine-checked Lean 4 theorems over an executable model of CppUTestStore / UT_PTR_SET / "
-              "SetPointerPlugin::postTestAction and of the plugin chain with TestRegistry install/remove/reset, for every test "
-              "body (any number of redirections, repeated targets, any outcome), any number of consecutive tests and every "
-              "chain of any length: with an enabled SetPointerPlugin installed every location holds after the post actions "
-              "the value from before the test and the table is empty; the (MAX_SET+1)-th store fails the test and writes "
-              "neither table nor location; every test has the whole table and behaves as if it ran first; pre actions run "
-              "in installation-reversed order over the enabled plugins, post actions in exactly the reverse, disabled "
-              "plugins see neither and enabled ones each exactly once; with pairwise different names removePluginByName "
-              "removes exactly the named plugin at any depth. MAX_SET is regenerated from the header; the model is tied to "
-              "the code on every run by a differential harness (real registry, real SetPointerPlugin, real UT_PTR_SET in "
-              "scripted tests ending by pass/FAIL/FAIL_C/exceptions, ASan/UBSan) and shape checks.")
-LEVEL_NOTE = ("Trusted: Lean kernel; the hand-written model (validated by this run's correspondence); the extractor. Observed "
+LEVEL_TEXT = ("Machine-checked Lean 4 theorems, for every test (any number of redirections in setup(), body and teardown(), "
+              "repeated targets, any phase ending by a failure or an exception), any number of consecutive tests and repetitions "
+              "and every chain of any length: with an enabled SetPointerPlugin installed every location holds after the post "
+              "actions the value from before the test and the table is empty; the (MAX_SET+1)-th store fails the test and "
+              "writes neither table nor location, in whichever phase the limit is reached; every test has the whole table and "
+              "behaves as if it ran first; pre actions run in installation-reversed order over the enabled plugins, post "
+              "actions in exactly the reverse, disabled plugins see neither and enabled ones each exactly once; with pairwise "
+              "different names removePluginByName removes exactly the named plugin at any depth; a run through "
+              "CommandLineTestRunner::runAllTestsMain restores every test of every repetition with no hypothesis on the "
+              "registry or the table and leaves the chain as it found it. CppUTestStore, SetPointerPlugin::postTestAction, "
+              "the constructor, the array length, UT_PTR_SET's statement order and the two chain walks are REGENERATED from "
+              "the clang AST of the current source on every run and proved (refinement, for all states) to be the model the "
+              "theorems are about, never to evaluate setlist[e] outside the array over any history, and to restore every "
+              "pointer; the rest of the model (chain operations, registry, Utest::run phases, runner) is tied to the code on "
+              "every run by a differential harness (real registry, real SetPointerPlugin, real UT_PTR_SET on four pointer "
+              "types, real CommandLineTestRunner, ASan/UBSan) and shape checks.")
+LEVEL_NOTE = ("Trusted: Lean kernel; the AST translator + interpreter (cross-checked against the hand model by theorem and on every "
+              "trace); the hand-written part of the model (validated by this run's correspondence); the shape extractor. Observed "
               "only: that the runner executes the post actions after a failing / throwing test (harness; the runner itself is "
-              "C01's model). Outside the claim: removePluginByName(\"null\") (the sentinel's name) and cyclic chains.")
-TECHNIQUE = "Lean 4 invariant proofs over an executable model + differential correspondence harness + regenerated constants and shape checks"
+              "C01's model, connected by C17x); the (void**)&(a) cast of UT_PTR_SET on function / typed pointers (harness). "
+              "Outside the claim: removePluginByName(\"null\") (the sentinel's name), cyclic chains, plugin construction or "
+              "nested registry runs inside a test with pending redirections, the runner's default re-throw mode.")
+TECHNIQUE = ("Lean 4 invariant + refinement proofs over an executable model; table code and chain walks translated from the clang "
+             "JSON AST into an interpreted statement language on every run; differential correspondence harness; regenerated constants and shape checks")
